@@ -13,7 +13,7 @@
    Both budgets are 40 followed links; ELOOP is part of the agreement.  What is NOT covered: paths that are not of
    the form "/c1/.../cn" with proper names (handled by Clean: C01_unclean); EvalSymlinks' error KIND on a loop. *)
 From Avfs Require Import Base PathModel PathSpec PathProofs PathCleanProofs PathIterProofs.
-From Avfs Require Import MemFS MemFile World Posix Inv WalkBridge WalkSym WalkBudget WalkReadlink WalkRel StepEq WalkInv.
+From Avfs Require Import MemFS MemFile World Posix Inv WalkBridge WalkSym WalkBudget WalkReadlink WalkRel StepEq WalkInv WalkEval.
 
 (* the search-permission test is the same function on both sides *)
 Theorem C04_perm_agree : forall (m : meta) (u : user),
@@ -202,3 +202,35 @@ Proof. exact kwalk_budget. Qed.
 Example C04_hyps_satisfiable :
   walk_wf WalkSymExamples.tree /\ links_clean WalkSymExamples.tree.
 Proof. split; [exact WalkSymNonVacuity.tree_wf|exact WalkSymNonVacuity.tree_links_clean]. Qed.
+
+(* EvalSymlinks: MemFS (the SlEval walk; the answer is the cursor's path) against Go's filepath.EvalSymlinks
+   ([go_eval_symlinks]: walkSymlinks on components with a destination list, Lstat of every extension through the
+   kernel, 255-link budget, Clean at the end).  For the administrator, on heaps satisfying C05's invariant with cleaned
+   link targets, for clean absolute paths: the SAME resolved path, or the same errno.  Premise "at most 40 links
+   crossed" = the kernel's following walk does not answer ELOOP; beyond that the two differ (MemFS ELOOP, Go follows up
+   to 255 links and reports a non-errno error): listed finding C04-EVAL-LOOP-ERROR.  Tk bounds the components of the
+   stored targets; the size condition keeps Go's per-extension Lstat inside the specification model's fuel. *)
+Theorem C04_eval : forall (s : fsys) (sv : sview) (cs : list str) (Tk : nat),
+  let v := sv_view sv in
+  let h := f_heap s in
+  v_os v = Linux -> us_admin (v_user v) = true -> Inv_heap h -> links_clean h -> node_is_dir h (v_root v) = true ->
+  Forall good_comp cs -> kbound h Tk -> length cs + MAXSYMLINKS * Tk + 2 < WALK_FUEL ->
+  klookup s sv false true (abs_path cs) <> WErr EFUEL ->
+  klookup s sv false true (abs_path cs) <> WErr ELOOP ->
+  sr_err (search_node s v (abs_path cs) SlEval) <> EFuel ->
+  proj_res Linux (eval_symlinks s v (abs_path cs)) = go_eval_symlinks s sv (abs_path cs).
+Proof. exact eval_agree. Qed.
+
+(* Go's loop simulates the kernel's following walk, carrying the link-free path of the kernel's current directory *)
+Theorem C04_eval_go_sim : forall (s : fsys) (sv : sview),
+  walk_wf (f_heap s) -> links_clean (f_heap s) -> node_is_dir (f_heap s) (v_root (sv_view sv)) = true ->
+  us_admin (v_user (sv_view sv)) = true ->
+  forall (Tk B : nat), kbound (f_heap s) Tk -> B + 2 < WALK_FUEL ->
+  forall fk F j (gd : list str) cur (work : list str) links md K,
+    Forall good_comp gd -> dwalk (f_heap s) (v_user (sv_view sv)) (v_root (sv_view sv)) gd = Some cur ->
+    Forall comp_ok work -> (md = false \/ work = []) ->
+    j + length gd + length work + (MAXSYMLINKS - links) * Tk <= B -> fk < F ->
+    kwalk fk (f_heap s) (v_user (sv_view sv)) (v_root (sv_view sv)) false true cur work links md = K ->
+    K <> WErr EFUEL -> K <> WErr ELOOP ->
+    go_rel s sv K (go_walk_symlinks F s sv (repeat DD j ++ gd) work links).
+Proof. exact go_sim. Qed.
